@@ -509,6 +509,43 @@ where
     out.count("probe:positional-checked");
 }
 
+/// Oracle 3 for the hybrid-array route (the one the DER codec uses): `ArrayEncoding::{to,from}_{be,le}_byte_array`.
+fn array_positional(words: &[u64], p: &Persist, out: &mut RunOut) {
+    use crypto_bigint::ArrayEncoding;
+    macro_rules! go {
+        ($($n:expr),*) => {
+            match words.len() {
+                $( $n => {
+                    let mut w = [0u64; $n];
+                    w.copy_from_slice(words);
+                    let x = Uint::<$n>::from_words(w);
+                    let mut le = big(words).to_bytes_le();
+                    le.resize(8 * $n, 0);
+                    let mut be = le.clone();
+                    be.reverse();
+                    let got_be = x.to_be_byte_array();
+                    let got_le = x.to_le_byte_array();
+                    if got_be.as_slice() != &be[..] {
+                        out.viol("C16/positional", "ArrayEncoding::to_be_byte_array:be".into(), format!("to_be_byte_array({}) = {}", hexw(words), hex(got_be.as_slice())), plan_json(p));
+                    }
+                    if got_le.as_slice() != &le[..] {
+                        out.viol("C16/positional", "ArrayEncoding::to_le_byte_array:le".into(), format!("to_le_byte_array({}) = {}", hexw(words), hex(got_le.as_slice())), plan_json(p));
+                    }
+                    if Uint::<$n>::from_be_byte_array(got_be) != x {
+                        out.viol("C16/positional", "ArrayEncoding::from_be_byte_array:be".into(), format!("from_be_byte_array(to_be_byte_array({})) differs", hexw(words)), plan_json(p));
+                    }
+                    if Uint::<$n>::from_le_byte_array(got_le) != x {
+                        out.viol("C16/positional", "ArrayEncoding::from_le_byte_array:le".into(), format!("from_le_byte_array(to_le_byte_array({})) differs", hexw(words)), plan_json(p));
+                    }
+                    out.count("probe:array-encoding-positional-checked");
+                } )*
+                _ => {}
+            }
+        };
+    }
+    go!(1, 2, 3, 4, 6, 7, 8, 16, 32);
+}
+
 macro_rules! const_monty_persist {
     ($( ($idx:expr, $name:ident, $n:expr) ),* $(,)?) => {
         fn persist_const_monty(id: usize, words: &[u64], p: &Persist, out: &mut RunOut) {
@@ -530,7 +567,13 @@ crate::for_each_modulus_small!(const_monty_persist);
 
 fn exec_persist(p: &Persist, out: &mut RunOut) {
     match p.ty {
-        Ty::Limb => persist(&Limb(p.words[0]), p, None, out),
+        Ty::Limb => {
+            let l = Limb(p.words[0]);
+            if Encoding::to_le_bytes(&l) != p.words[0].to_le_bytes() || Encoding::to_be_bytes(&l) != p.words[0].to_be_bytes() || Limb::from_le_bytes(p.words[0].to_le_bytes()) != l || Limb::from_be_bytes(p.words[0].to_be_bytes()) != l {
+                out.viol("C16/positional", "Limb::Encoding".into(), format!("Limb({:#x}) byte encodings are not positional", p.words[0]), plan_json(p));
+            }
+            persist(&l, p, None, out)
+        }
         Ty::NzLimb => {
             if let Some(x) = Option::<NonZero<Limb>>::from(NonZero::new(Limb(p.words[0]))) {
                 persist(&x, p, None, out)
@@ -544,6 +587,7 @@ fn exec_persist(p: &Persist, out: &mut RunOut) {
             match p.ty {
                 Ty::Uint => {
                     positional(&x, p, out);
+                    array_positional(&p.words[..N], p, out);
                     persist(&x, p, Some(8 * N), out)
                 }
                 Ty::WrappingUint => persist(&Wrapping(x), p, Some(8 * N), out),
